@@ -7,7 +7,22 @@ open Wz Wz.Proto Wz.Routing Wz.Routing.Wire
 def outChain (r : List Outcome × Option String) : String :=
   " > ".intercalate (r.1.map outOutcome) ++ (match r.2 with | some e => " > " ++ e | none => "")
 
+/-- request action `F<hex path>:<hex method>` -/
+def predictFollow (m : RMap) (a : Adapter) (qa : QueryArgs) (hops : Nat) (act : String) : String :=
+  match (act.drop 1).toString.splitOn ":" with
+  | [p, meth] =>
+    match unhexStr p, unhexStr meth with
+    | some p, some meth => outChain (follow m a (some meth) none hops p qa [])
+    | _, _ => badArgs
+  | _ => badArgs
+
 def handle : Handler
+  | "route.sched", [m, a, qa, hops, acts, grants] =>
+    match mapArg m, adapterArg a, qaArg qa, natArg hops with
+    | some (some m), some a, some qa, some hops =>
+      some (Wz.Driver.C03.schedCmd (predictFollow m a qa hops) m.rules.length acts grants)
+    | some none, _, _, _ => some "UNSUPPORTED"
+    | _, _, _, _ => some badArgs
   | "route.follow", [m, a, qa, ws, hops, probes] =>
     match mapArg m, adapterArg a, qaArg qa, optArg boolArg ws, natArg hops with
     | some (some m), some a, some qa, some ws, some hops =>
